@@ -107,6 +107,22 @@ def check_result(case):
     if tnodes != set(S) | set(T) | set(I):
         problems.append(("tables", {"exported_not_in_summaries": sorted(tnodes - (set(S) | set(T) | set(I)))[:5],
                                     "in_summaries_not_exported": sorted((set(S) | set(T) | set(I)) - tnodes)[:5]}))
+    # the summary lists are the roles the lineage graph gives: degrees over the exported table edges + the graph's source_only /
+    # target_only / selfloop node tags (independent recomputation of the role rule stated in C03)
+    try:
+        tg = lr._sql_holder.table_lineage_graph
+        tag = lambda name: {str(n) for n, a in tg.nodes(data=True) if a.get(name) is True}  # noqa: E731
+        tedges = {(e["data"]["source"], e["data"]["target"]) for e in tab if "source" in e["data"]}
+        has_in, has_out = {b for a, b in tedges}, {a for a, b in tedges}
+        sl = tag("selfloop")
+        want = {"source": ((has_out - has_in) | sl | tag("source_only")) & tnodes, "target": ((has_in - has_out) | sl | tag("target_only")) & tnodes,
+                "intermediate": (has_in & has_out) - sl}
+        for name, got in (("source", S), ("target", T), ("intermediate", I)):
+            if set(got) != want[name]:
+                problems.append(("roles", {"role": name, "summary": sorted(got)[:6], "graph_says": sorted(want[name])[:6]}))
+                break
+    except AttributeError:
+        pass
     # column level: edges == hops of all paths ; owners
     cedges = {(e["data"]["source"], e["data"]["target"]) for e in col if "source" in e["data"]}
     cnodes = {e["data"]["id"]: e["data"] for e in col if "source" not in e["data"]}
